@@ -217,6 +217,8 @@ pub enum FaultKind {
     NonProcedure,
     CompileSyntax,
     ReadSyntax,
+    /// a derived form that no rule of its macro matches: fails while the form is being expanded
+    MacroSyntax,
 }
 
 pub const RUNTIME_KINDS: [FaultKind; 5] = [
@@ -227,7 +229,7 @@ pub const RUNTIME_KINDS: [FaultKind; 5] = [
     FaultKind::NonProcedure,
 ];
 
-pub const ALL_KINDS: [FaultKind; 7] = [
+pub const ALL_KINDS: [FaultKind; 8] = [
     FaultKind::Unbound,
     FaultKind::Type,
     FaultKind::Arity,
@@ -235,6 +237,7 @@ pub const ALL_KINDS: [FaultKind; 7] = [
     FaultKind::NonProcedure,
     FaultKind::CompileSyntax,
     FaultKind::ReadSyntax,
+    FaultKind::MacroSyntax,
 ];
 
 pub const READ_FAULT_PLACEHOLDER: &str = "%READ-FAULT%";
@@ -249,6 +252,7 @@ impl FaultKind {
             FaultKind::NonProcedure => "non_procedure",
             FaultKind::CompileSyntax => "compile_syntax",
             FaultKind::ReadSyntax => "read_syntax",
+            FaultKind::MacroSyntax => "macro_syntax",
         }
     }
 
@@ -284,6 +288,11 @@ impl FaultKind {
                 }
             }
             FaultKind::ReadSyntax => sym(READ_FAULT_PLACEHOLDER),
+            FaultKind::MacroSyntax => match n % 3 {
+                0 => list(vec![sym("let")]),
+                1 => crate::sx::read_one("(let ((a 1)) (let* ((b a)) (let loop ((i 0)) (cond))))").unwrap(),
+                _ => crate::sx::read_one("(when #t (let* (x) x))").unwrap(),
+            },
         }
     }
 }
@@ -293,7 +302,7 @@ pub fn ref_expr(kind: FaultKind, n: u64) -> Sx {
     match kind {
         // a user error carries a payload that is compared
         FaultKind::UserError => kind.vm_expr(n),
-        FaultKind::CompileSyntax => kind.vm_expr(n),
+        FaultKind::CompileSyntax | FaultKind::MacroSyntax => kind.vm_expr(n),
         FaultKind::ReadSyntax => list(vec![sym("if")]), // the whole form is rejected before any effect
         _ => call("%inject", vec![]),
     }
